@@ -4,6 +4,7 @@ package lib
 
 import (
 	"fmt"
+	"os"
 	"runtime/debug"
 	"time"
 
@@ -12,6 +13,10 @@ import (
 	"github.com/aml-org/amf-custom-validator/pkg/events"
 	"github.com/open-policy-agent/opa/rego"
 )
+
+// DebugFlag is the value passed as the `debug` argument of every entry point by the wrappers below. No property
+// depends on it, so every second worker process runs with debug=true (VERIF_DEBUG=1, inherited by helper processes).
+var DebugFlag = os.Getenv("VERIF_DEBUG") == "1"
 
 // FixedClock is the injected ValidationConfiguration: no oracle ever depends on the wall clock.
 type FixedClock struct{ T time.Time }
@@ -54,14 +59,14 @@ func Validate(profile, data string) (o Outcome) {
 
 func ValidateCfg(profile, data string, ch *chan events.Event, vc config.ValidationConfiguration, rc config.ReportConfiguration) (o Outcome) {
 	defer guard(&o)
-	o.Report, o.Err = pkg.ValidateWithConfiguration(profile, data, false, ch, vc, rc)
+	o.Report, o.Err = pkg.ValidateWithConfiguration(profile, data, DebugFlag, ch, vc, rc)
 	return
 }
 
 // ValidateDefault calls pkg.Validate (wall clock inside the report).
 func ValidateDefault(profile, data string, ch *chan events.Event) (o Outcome) {
 	defer guard(&o)
-	o.Report, o.Err = pkg.Validate(profile, data, false, ch)
+	o.Report, o.Err = pkg.Validate(profile, data, DebugFlag, ch)
 	return
 }
 
@@ -93,7 +98,7 @@ func Compile(profile string, ch *chan events.Event) (c Compiled) {
 			c.Stack = string(debug.Stack())
 		}
 	}()
-	c.Q, c.Err = pkg.CompileProfile(profile, false, ch)
+	c.Q, c.Err = pkg.CompileProfile(profile, DebugFlag, ch)
 	return
 }
 
@@ -103,13 +108,13 @@ func ValidateCompiled(q *rego.PreparedEvalQuery, data string) Outcome {
 
 func ValidateCompiledCfg(q *rego.PreparedEvalQuery, data string, ch *chan events.Event, vc config.ValidationConfiguration, rc config.ReportConfiguration) (o Outcome) {
 	defer guard(&o)
-	o.Report, o.Err = pkg.ValidateCompiledWithConfiguration(q, data, false, ch, vc, rc)
+	o.Report, o.Err = pkg.ValidateCompiledWithConfiguration(q, data, DebugFlag, ch, vc, rc)
 	return
 }
 
 func ValidateCompiledDefault(q *rego.PreparedEvalQuery, data string, ch *chan events.Event) (o Outcome) {
 	defer guard(&o)
-	o.Report, o.Err = pkg.ValidateCompiled(q, data, false, ch)
+	o.Report, o.Err = pkg.ValidateCompiled(q, data, DebugFlag, ch)
 	return
 }
 
